@@ -201,6 +201,15 @@ impl Binder {
     pub(super) fn bind_orderby(&mut self, order_by: Vec<OrderByExpr>) -> Result {
         let mut orderby = Vec::with_capacity(order_by.len());
         for e in order_by {
+            // NULL sorts as the smallest value: first in ascending, last in descending order.
+            // The other placement is not implemented; it used to be parsed and ignored.
+            let desc = e.asc == Some(false);
+            if e.nulls_first.is_some_and(|first| first == desc) {
+                return Err(ErrorKind::Todo(
+                    (if desc { "ORDER BY .. DESC NULLS FIRST" } else { "ORDER BY .. NULLS LAST" }).into(),
+                )
+                .into());
+            }
             let expr = self.bind_expr(e.expr)?;
             let key = match e.asc {
                 Some(true) | None => expr,
